@@ -157,7 +157,7 @@ def plan_c07(tier, seed):
 reg(Prop(
     "C07", "exploration", plan_c07,
     accept=["C07"],
-    floors={"exhaustive.loops": 30000, "iter_destroy.visits": 50000, "direct_source|ecs_iter_destroy!": 1000, "iter_destroy.broke": 1000},
+    floors={"exhaustive.loops": 30000, "iter_destroy.visits": 50000, "direct_obtained|ecs_iter_destroy!": 1000, "iter_destroy.broke": 1000},
     rule="(a) exhaustive: every decision function (4^n assignments of Continue/ContinueDestroy/Break/BreakDestroy, keyed by entity, not by visiting order) for every population (n1, n2), n1+n2 <= 6 (quick) / 8 (thorough) of the two-archetype world from three prior histories (exact capacity, after churn, grown from 0), each on a fresh clone, followed by the full probe suite; (b) random: ecs_iter_destroy! over 6 cross-archetype queries and per-archetype typed loops embedded in churn histories. Oracle: visited set == matched live set unless a Break, nothing after a Break, exactly the flagged destroyed, survivors unchanged, direct handles handed to the closure judged by C09's rule. distinct_nontrivial = number of (history shape, n1, n2, decision function) cases enumerated (exact: processes enumerate disjoint cases)",
     nontrivial_key="exhaustive_cases", assumptions=COMMON_ASSUME, design_ref="DESIGN.md section 4, C07", distinct_merge="sum"))
 
@@ -192,7 +192,8 @@ reg(Prop(
     lambda tier, seed: history_plan("direct", tier, seed),
     accept=["C09"],
     floors={"direct|no-removal|no-creation|accepted": 10000, "direct|removal-since|creation-since|rejected": 10000, "direct|no-removal|creation-since|accepted": 1000,
-            "direct_source|ecs_iter_destroy!": 50, "direct_source|World::to_direct": 100, "direct_source|ecs_find!(wild params)": 100, "direct_source|ecs_iter_borrow!(Entity<A>)": 20},
+            "direct_obtained|ecs_iter_destroy!": 500, "direct_obtained|World::to_direct": 1000, "direct_obtained|Archetype::to_direct": 1000, "direct_obtained|ecs_find!(wild params)": 1000,
+            "direct_obtained|ecs_find_borrow!(typed params)": 1000, "direct_obtained|ecs_iter_borrow!(Entity<A>)": 200, "direct_obtained|ecs_iter!(Entity<A>)": 200, "direct_obtained|ecs_iter_borrow!": 200},
     rule=HIST + "direct handles are harvested at every step from to_direct (4 key kinds, world and archetype level) and from EntityDirect<A> / EntityDirect<_> / EntityDirectAny closure parameters of all five query macros, stamped with the archetype's removal/creation counters, and re-probed later through every lookup path and destroy as typed and dynamic direct keys: removal since issue => must be rejected; no structural change => must be accepted and designate the entity it was issued for; creations only => either, but if accepted the same entity. evaluations = history steps; " + STATES,
     nontrivial_key="storage_states", assumptions=COMMON_ASSUME, design_ref="DESIGN.md section 4, C09"))
 
@@ -274,8 +275,8 @@ def plan_c14(tier, seed):
     jobs = shards(Config("dbg"), "convert", "main", 8, 60000 * k, seed, timeout=3000)
     jobs += shards(Config("rel"), "convert", "main", 8, 200000 * k, seed + 1, timeout=3000)
     jobs += shards(Config("asan"), "convert", "main", 2, 30000 * k, seed + 2, timeout=3000)
-    jobs += shards(Config("miri-dbg"), "convert", "main", 2, 40, seed + 3, timeout=3000)
-    jobs += shards(Config("miri-rel"), "convert", "main", 2, 40, seed + 4, timeout=3000)
+    jobs += shards(Config("miri-dbg"), "convert", "main", 3, 150, seed + 3, timeout=3000)
+    jobs += shards(Config("miri-rel"), "convert", "main", 3, 150, seed + 4, timeout=3000)
     jobs += history_plan("churn", tier, seed + 5, scale=0.3, tools=("dbg", "rel"))
     return jobs
 
